@@ -266,7 +266,18 @@ class NetCDFWrite(IOWrite):
                 del netcdf_attrs["_FillValue"]
 
         if not g["dry_run"]:
-            g["nc"][ncvar].setncatts(netcdf_attrs)
+            attrs = netcdf_attrs
+            if (
+                g["fmt"] == "NETCDF4_CLASSIC"
+                and "_FillValue" in attrs
+                and "_FillValue" in g["nc"][ncvar].ncattrs()
+            ):
+                # The fill value was set when the variable was
+                # created, and a netCDF4 classic model file does not
+                # allow it to be set again
+                attrs = {k: v for k, v in attrs.items() if k != "_FillValue"}
+
+            g["nc"][ncvar].setncatts(attrs)
 
         if skip_set_fill_value:
             # Re-add as known attribute since this FV is already set
@@ -2717,6 +2728,14 @@ class NetCDFWrite(IOWrite):
             )
         else:
             fill_value = None
+
+        if fill_value is None and g["fmt"] == "NETCDF4_CLASSIC":
+            # A netCDF4 classic model file does not allow the
+            # _FillValue attribute to be set after the variable has
+            # been created, so it has to be set at creation
+            fill_value = self.implementation.get_property(
+                cfvar, "_FillValue", None
+            )
 
         if data_variable:
             lsd = g["least_significant_digit"]
